@@ -67,6 +67,6 @@ pub fn run(_seed: u64, replay: Option<String>) -> Outcome {
     for len in 0..=5usize { let tot = 3usize.pow(len as u32); for code in 0..tot { let mut c = code; let mut s = String::new(); for _ in 0..len { s.push((b'0' + (c % 3) as u8) as char); c /= 3; }
         cases += 1; if let Some(x) = check("perm", &s) { return Outcome { cex: Some(x), cases }; } } }
     for s in ["0123", "3210", "01234", "43210", "012345"] { cases += 1; if let Some(x) = check("perm", s) { return Outcome { cex: Some(x), cases }; } }
-    for n in 1..=4usize { for m in 1..=4usize { for i in 0..n { for j in 0..m { cases += 1; if let Some(x) = check("nb", &format!("{},{},{},{}", n, m, i, j)) { return Outcome { cex: Some(x), cases }; } } } } }
+    for n in 1..=6usize { for m in 1..=6usize { for i in 0..n { for j in 0..m { cases += 1; if let Some(x) = check("nb", &format!("{},{},{},{}", n, m, i, j)) { return Outcome { cex: Some(x), cases }; } } } } }
     Outcome { cex: None, cases }
 }
